@@ -80,6 +80,7 @@ func zexp(v int64) *big.Int { return new(big.Int).Mul(big.NewInt(v), big.NewInt(
 
 var (
 	u1, u2, u3, u4, u5, u6 = g.User1.Address, g.User2.Address, g.User3.Address, g.User4.Address, g.User5.Address, g.User6.Address
+	p1addr                 = g.Pillar1.Address
 	// an address nobody ever used
 	unknownAddr = types.Address{0, 0xc1, 0x80, 1, 2, 3, 4, 5, 6, 7, 8, 9, 10, 11, 12, 13, 14, 15, 16, 17}
 )
